@@ -454,7 +454,7 @@ fn sub_formula_validity(ctx: &Ctx, out: &mut Outcome, n: u64) {
 
 pub fn run(ctx: &Ctx) -> Outcome {
     let q = ctx.quick();
-    let secs = if q { 25. } else { 600. };
+    let secs = if q { 60. } else { 600. };
     let base_rule = "Scenes are executed on the real DrawTarget under the instrumented wrapper: before every call the shadow model (clip stack with per-path coverage maps, layer stack, transform) \
                      and probes (shape coverage: white-on-transparent render; source colour: full-surface Src render; effective clip: white fill on a clip-only twin) give each pixel's inputs; after the call every pixel of every buffer \
                      (surface and open layers, read through the verif_layer hook) is checked. A scene is non-trivial when at least one pixel changed and at least one was asserted unchanged; distinct = hash of the whole scene.";
@@ -465,8 +465,8 @@ pub fn run(ctx: &Ctx) -> Outcome {
             sub_directed(ctx, &mut out);
             let mut p = SceneProfile::general();
             p.ops = (2, 8);
-            sub_general(ctx, &mut out, "scenes_partial_shapes", p, ctx.n(25_000, 1_500_000), secs);
-            sub_mask_lab(ctx, &mut out, ctx.n(3_000, 150_000), secs / 2.);
+            sub_general(ctx, &mut out, "scenes_partial_shapes", p, ctx.n(100_000, 1_500_000), secs);
+            sub_mask_lab(ctx, &mut out, ctx.n(12_000, 150_000), secs / 2.);
         }
         "C03" => {
             out = Outcome::new(&format!(
@@ -475,8 +475,8 @@ pub fn run(ctx: &Ctx) -> Outcome {
             ));
             sub_directed(ctx, &mut out);
             sub_opacity_lab(ctx, &mut out);
-            sub_mask_lab(ctx, &mut out, ctx.n(6_000, 300_000), secs / 2.);
-            sub_general(ctx, &mut out, "scenes", SceneProfile::general(), ctx.n(15_000, 1_000_000), secs);
+            sub_mask_lab(ctx, &mut out, ctx.n(20_000, 300_000), secs / 2.);
+            sub_general(ctx, &mut out, "scenes", SceneProfile::general(), ctx.n(80_000, 1_000_000), secs);
         }
         "C05" => {
             out = Outcome::new(&format!(
@@ -485,8 +485,8 @@ pub fn run(ctx: &Ctx) -> Outcome {
             ));
             sub_directed(ctx, &mut out);
             let p = SceneProfile { max_size: 12, clips: 1.6, layers: 0.3, transforms: 0.5, solid_weight: 6, ops: (4, 14) };
-            sub_general(ctx, &mut out, "scenes_clip_heavy", p, ctx.n(20_000, 1_200_000), secs);
-            sub_clip_order(ctx, &mut out, ctx.n(20_000, 1_000_000), secs / 2.);
+            sub_general(ctx, &mut out, "scenes_clip_heavy", p, ctx.n(80_000, 1_200_000), secs);
+            sub_clip_order(ctx, &mut out, ctx.n(80_000, 1_000_000), secs / 2.);
         }
         "C06" => {
             out = Outcome::new(&format!(
@@ -495,8 +495,8 @@ pub fn run(ctx: &Ctx) -> Outcome {
             ));
             sub_directed(ctx, &mut out);
             let p = SceneProfile { max_size: 12, clips: 0.6, layers: 1.6, transforms: 0.4, solid_weight: 6, ops: (4, 14) };
-            sub_general(ctx, &mut out, "scenes_layer_heavy", p, ctx.n(15_000, 1_000_000), secs);
-            sub_isolated_group(ctx, &mut out, ctx.n(15_000, 1_000_000), secs);
+            sub_general(ctx, &mut out, "scenes_layer_heavy", p, ctx.n(60_000, 1_000_000), secs);
+            sub_isolated_group(ctx, &mut out, ctx.n(60_000, 1_000_000), secs);
         }
         "C18" => {
             out = Outcome::new(&format!(
@@ -505,11 +505,11 @@ pub fn run(ctx: &Ctx) -> Outcome {
             ));
             sub_directed(ctx, &mut out);
             sub_color_conversions(ctx, &mut out);
-            sub_formula_validity(ctx, &mut out, ctx.n(200_000, 20_000_000));
+            sub_formula_validity(ctx, &mut out, ctx.n(1_000_000, 20_000_000));
             sub_opacity_lab(ctx, &mut out);
-            sub_mask_lab(ctx, &mut out, ctx.n(3_000, 200_000), secs / 2.);
+            sub_mask_lab(ctx, &mut out, ctx.n(10_000, 200_000), secs / 2.);
             let p = SceneProfile { max_size: 12, clips: 0.6, layers: 0.8, transforms: 0.3, solid_weight: 4, ops: (3, 10) };
-            sub_general(ctx, &mut out, "scenes", p, ctx.n(15_000, 1_000_000), secs);
+            sub_general(ctx, &mut out, "scenes", p, ctx.n(60_000, 1_000_000), secs);
         }
         _ => unreachable!(),
     }
